@@ -188,6 +188,14 @@ def _monitor(ex, method, consume):
     status, headers, _ = ex.start_calls[-1]
     if not isinstance(status, str) or not _STATUS_RE.match(status):
         ex.err('bad-status-line', repr(status))
+    else:
+        # a native string that must go onto the wire as is: latin-1 only, no control characters
+        try:
+            status.encode('latin-1')
+        except UnicodeEncodeError:
+            ex.err('status-line-not-latin1', repr(status)[:80])
+        if any(ord(c) < 0x20 or ord(c) == 0x7f for c in status):
+            ex.err('status-line-control-char', repr(status)[:80])
     if type(headers) is not list:
         ex.err('headers-not-list', type(headers).__name__)
     else:
